@@ -19,6 +19,7 @@ EXPLANATION = "exhaustive sub-domain: all ordered sets of <=3 distinct intervals
 ASSUMPTIONS = ["interval ends are ints or exactly representable floats"]
 FLOORS = {}
 SHARDS = {"quick": 12, "thorough": 14}
+CASE_FUEL = 200000
 
 
 def run_case(case, ctx):
